@@ -282,8 +282,20 @@ func (m *Muxer) validate() error {
 			return fmt.Errorf("%w: non-animated image must have exactly 1 frame", ErrMuxValidation)
 		}
 	}
+	// Offsets are stored halved in 24 bits and cannot be negative; the canvas
+	// dimensions are stored minus one in 24 bits (libwebp: MAX_POSITION_OFFSET,
+	// MAX_CANVAS_SIZE).
+	for i, f := range m.frames {
+		if f.opts.OffsetX < 0 || f.opts.OffsetY < 0 ||
+			f.opts.OffsetX >= container.MaxPositionOff || f.opts.OffsetY >= container.MaxPositionOff {
+			return fmt.Errorf("%w: frame %d offset (%d,%d) out of range", ErrMuxValidation, i, f.opts.OffsetX, f.opts.OffsetY)
+		}
+	}
 	// Check that frame dimensions fit within the canvas.
 	canvasW, canvasH := m.canvasSize()
+	if canvasW > container.MaxCanvasSize || canvasH > container.MaxCanvasSize {
+		return fmt.Errorf("%w: canvas %dx%d exceeds the maximum of %d", ErrMuxValidation, canvasW, canvasH, container.MaxCanvasSize)
+	}
 	for i, f := range m.frames {
 		fw, fh := frameDimensions(f.data)
 		if fw == 0 || fh == 0 {
